@@ -173,7 +173,7 @@ def run_obligations(scratch, obls, tier, jobs=None, timeout_s=None, mem_gb=None)
 PLAYBACK_RE = re.compile(r"(///[^\n]*\n)*#\[test\]\s*\nfn (kani_concrete_playback_\w+)\(\) \{.*?\n\}\n", re.S)
 
 
-def replay(scratch, cands, prop, timeout_s=600):
+def replay(scratch, cands, prop, timeout_s=1500):
     """For each candidate (a violated obligation): ask Kani for the concrete counterexample, append the generated unit
     test(s) to the scratch copy of the harness file and execute them natively with `cargo kani playback` (dev profile,
     real code, no solver).  Returns {harness: {"reproduced": bool, "replay": path, "tests": [...], "panic": str}}"""
